@@ -93,7 +93,7 @@ def generate(config, tag, tier='quick'):
     if tier == 'thorough':
         flags.append('all_tuples')
     es, ex = None, None
-    if tag in ('C05', 'C13') and config == 'std':
+    if tag in ('C05', 'C13', 'C01', 'C03', 'C07', 'C11', 'C12') and config == 'std':
         import family
         seed = int(os.environ.get('VERIF_SEED', '0') or 0)
         try:
